@@ -227,7 +227,7 @@ def cases(tier, seed):
             for pre in ("transpose_rev", "isel_list", "copy_deep"):
                 yield {"mesh": {"family": "polyhedron", "name": "prism6", "ops": [["partial", [len(nm), 0.7, "random"]]] if len(nm) % 2 else []},
                        "kind": kind, "dtype": "float64", "lead": [2, 3], "program": [pre, nm], "dseed": len(nm) + len(pre)}
-    n = 420 if tier == "quick" else 16000
+    n = 420 if tier == "quick" else 100000
     allops = names + OWN + OWN  # own operations twice as likely
     for i in range(n):
         depth = int(rng.integers(2, 5))
